@@ -3,7 +3,9 @@
 //!
 //! Grammar: `fresh` | item ('+' item)*, item = `s<K>x<SIZE>` (K streams
 //! /f<item>_<i> of SIZE bytes) | `d<K>` (K storages /g<item>_<i>) | `b<BYTES>` (one stream
-//! /big of BYTES bytes) | `r<K>x<SIZE>` (create then remove K streams /t<item>_<i>).
+//! /big of BYTES bytes) | `r<K>x<SIZE>` (create then remove K streams /t<item>_<i>) |
+//! `g<K>x<SIZE>` (K pairs /x<item>_<i>, /k<item>_<i> created alternately, then every /x removed:
+//! K free gaps, each below a stream that stays).
 use crate::ops::Op;
 use crate::runner::{Oracles, Runner};
 
@@ -27,6 +29,18 @@ pub fn seed_ops(seed: &str) -> Result<Vec<Op>, String> {
                     for i in 0..k {
                         ops.push(Op::RemoveStream(format!("/{}{}_{}", pfx, j, i)));
                     }
+                }
+            }
+            "g" => {
+                let mut it = rest.split('x');
+                let k: usize = it.next().and_then(|x| x.parse().ok()).ok_or(format!("bad seed item {}", item))?;
+                let size: usize = it.next().and_then(|x| x.parse().ok()).ok_or(format!("bad seed item {}", item))?;
+                for i in 0..k {
+                    ops.push(Op::Rewrite(format!("/x{}_{}", j, i), size));
+                    ops.push(Op::Rewrite(format!("/k{}_{}", j, i), size));
+                }
+                for i in 0..k {
+                    ops.push(Op::RemoveStream(format!("/x{}_{}", j, i)));
                 }
             }
             "d" => {
